@@ -15,6 +15,7 @@
 package server
 
 import (
+	"math"
 	"strings"
 	"sync"
 	"time"
@@ -95,6 +96,10 @@ func (s *Server) Subscribe(req *sdcpb.SubscribeRequest, stream sdcpb.DataServer_
 	for _, subsc := range req.GetSubscription() {
 		if subsc.GetSampleInterval() < uint64(time.Second) {
 			subsc.SampleInterval = uint64(time.Second)
+		}
+		// the interval becomes a time.Duration, which is signed
+		if subsc.GetSampleInterval() > uint64(math.MaxInt64) {
+			subsc.SampleInterval = uint64(math.MaxInt64)
 		}
 	}
 
